@@ -455,6 +455,18 @@ def instantiate_key_setup(b):
 
     me._attrs['deserialize'] = Model('deserialize', deserialize)
 
+    def serialize_any(interp, st, args, kwargs):
+        # serialize(x): a deterministic, injective function of the value (canonical JSON)
+        v = ops.resolve(st, args[0])
+        if not isinstance(v, SV):
+            raise sym.Unsupported(f'serialize({v!r}) in _instantiate_key')
+        f = UF('ser_' + v.ty.name(), v.ty, BYTES)
+        g = UF('unser_' + v.ty.name(), BYTES, v.ty)
+        st.assume(g(f(v.z)) == v.z)
+        yield st, SV(BYTES, f(v.z))
+
+    me._attrs['serialize'] = Model('serialize', serialize_any)
+
 
 def instantiate_key_post(prop):
     def post(res):
